@@ -11,6 +11,7 @@ mod c07;
 mod c11;
 mod c12;
 mod c13;
+mod c14;
 mod c16;
 mod c17;
 mod c18;
@@ -49,6 +50,7 @@ fn main() {
         }
         "C12" => c12::run(&cli, &rep),
         "C13" => c13::run(&cli, &rep),
+        "C14" => c14::run(&cli, &rep),
         "C16" => c16::run(&cli, &rep),
         "C17" => c17::run(&cli, &rep),
         "C18" => c18::run(&cli, &rep),
